@@ -891,15 +891,17 @@ impl Suite for HistorySuite {
 pub fn run(ctx: &mut Ctx) {
     super::replay_corpus(ctx, replay);
     ctx.run_suite(&HistorySuite);
+    ctx.run_suite(&super::c16http::EndpointSuite);
     ctx.assume("the statement does not say which traffic series counts which direction: either assignment is accepted as long as it is the same in every history step and protocol; label values are compared case-insensitively");
     ctx.assume("real loopback sockets and real time: a gauge is judged wrong only if it does not reach the model within 4 s of the operation");
-    ctx.assume("outbound_udp_sockets is exercised by the UDP flow check (C07); the HTTP listener of the metrics endpoint (/metrics, /health-check) by the thorough tier when present");
+    ctx.assume("the HTTP listener of the metrics endpoint (/metrics, /health-check) is scraped over TCP by suite metrics-endpoint; the histories read the same text through the door");
     let _ = viol::<()>("", "");
 }
 
 pub fn replay(ctx: &mut Ctx, suite: &str, case: &Value) -> bool {
     match suite {
         "session-histories" => ctx.replay_suite(&HistorySuite, case),
+        "metrics-endpoint" => ctx.replay_suite(&super::c16http::EndpointSuite, case),
         _ => false,
     }
 }
